@@ -158,3 +158,18 @@ def run(ctx):
     ctx.extra["float32_histories_checked"] = n32
     ctx.extra["resumed_histories_checked"] = nres
     ctx.extra["resumed_after_fault_checked"] = nlive
+    # a second FRESH run on the same sampler object (one sampler driven repeatedly in a seed / schedule study): its history is the
+    # record of THAT run — one entry per iteration of that run, its own initial population first
+    import copy
+    nreuse = 0
+    for r in [r for r in runs if r.error is None and r.cfg["kind"] != "emcee_smc"][: ctx.scale(4, 20)]:
+        c2 = copy.deepcopy(r.cfg)
+        c2["ckpt"], c2["every"] = ("cb-every" if r.cfg["ckpt"] == "none" else "none"), 2
+        r2 = sr.do_run(c2, retry_on=r, vid0=20000)
+        nreuse += 1
+        ctx.count(("reused-sampler", r.cfg["seed"]), True, kind="fresh-run-on-a-used-sampler")
+        if r2.error is not None:
+            ctx.violation(f"reused-sampler-raises:{r2.error[0]}", f"second fresh run on a sampler that has already run: {r2.error[:2]}", {"cfg": c2})
+            continue
+        check_history(ctx, r2, "reused-sampler")
+    ctx.extra["fresh_runs_on_a_used_sampler"] = nreuse
